@@ -46,10 +46,9 @@ def fxv(x):
         return "inf", 0
     if x == -INF:
         return "-inf", 0
-    v = int(round(x * UNIT))
-    if abs(v) >= 2147000000:
+    if abs(x) >= 2147.0:
         return "big", 0
-    return "val", v
+    return "val", int(round(x * UNIT))
 
 
 def fx0(x):
@@ -852,8 +851,50 @@ def pinned_scenarios():
 
 
 # ================================================================== check
+def go_inside_support(c):
+    """input class of F32: is the observed vector inside the support of the unbiased estimator?"""
+    d, n = c["d"], len(c["x"])
+    C = cmat(c["x"], d)
+    dl = [n * c["y"][j] - sum(r[j] for r in c["x"]) for j in range(d)]
+    P = [[(n - 1) * C[j][k] - dl[j] * dl[k] for k in range(d)] for j in range(d)]
+    return P[0][0] > 0 and det(P, d) > 0
+
+
 def classify(sc, tr, v):
-    """Known-finding classifiers: each matches exactly the failing input class of one finding."""
+    """Known-finding classifiers: each matches exactly the failing input class of one finding of DESIGN
+    section 6 / this check (F16, F17, F18, F21, F31, F32).  They only take effect for findings that
+    KNOWN_FINDINGS.txt lists as 'known:' (all six have proposed repairs instead)."""
+    evs = tr["events"]
+    e = evs[min(max(v["l"] - 2, 0), len(evs) - 1)]
+    cl = v["verdict"]
+    if sc["kind"] == "run":
+        if cl == "P:sample-raised" and (e["exc"].startswith("ValueError: setting an array element with a sequence") or "NINF" in e["exc"]):
+            return "F18"
+        return None
+    if sc["kind"] == "mh":
+        ps = [tuple(p) for p in sc["ps"]]
+        if cl == "P:jacobian" and e["res"] == "ok" and any(p[0] == 1 and a != b for p, a, b in zip(ps, e["E"], e["E2"])):
+            return "F17"
+        if cl == "P:mh-ratio" and e["res"] == "ok" and e["tb"] and not e["cz"]:
+            moved = [k for k, p in enumerate(ps) if p[0] != 3 and e["pE"][k] != e["cE"][k]]
+            at_theta = e["nj"] == 2 and e["jc"] == [fx0(float(back_fr(p, fr(x)))) for p, x in zip(ps, e["cE"])]
+            if moved and at_theta:
+                return "F16"      # the Jacobian helper was handed the untransformed parameter values
+            if any(ps[k][0] == 1 for k in moved) and not at_theta:
+                return "F17"      # upper bound only: sign of log J
+        return None
+    c = sc["c"]
+    if cl == "P:valid-input-raised" and c["d"] == 1:
+        if e["fn"] in ("mean", "var") and "Input must be 1- or 2-d" in e["exc"]:
+            return "F31"
+        if e["fn"] == "std" and e["W"] and "matmul" in e["exc"]:
+            return "F31"
+    if cl == "P:unbiased" and e["fn"] == "go":
+        inside = go_inside_support(c)
+        if e["res"] == "val" and not inside:
+            return "F32"          # finite value where the estimator is zero
+        if (c["d"] == 1 and e["res"] == "-inf" and inside) or (c["d"] >= 2 and e["res"] == "val" and inside):
+            return "F21"
     return None
 
 
@@ -974,9 +1015,9 @@ def design_runs(ctx):
     runs.append(("BslRound", "br_neg_simfirst", BR_CFG % (4, 2, 2, "TRUE", "FALSE", invs(["NoSimForRejected"])), False, None))
     if not ctx.quick:
         runs.append(("MC_BslMh", "mh_dim2", MH_CFG % (2, "TRUE", "TRUE", invs(MH_INVS)), True, mh_act))
-        runs.append(("MC_SynLik", "sl_d1_big", sl(6, 1, "0, 1, 2, 4", "0, 1, 3, 6", "1, 2, 4", 0, True, SL_INVS), True, ["Whiten"]))
+        runs.append(("MC_SynLik", "sl_d1_big", sl(6, 1, "0, 1, 2, 4", "0, 1, 3, 6", "1, 2", 0, True, SL_INVS), True, ["Whiten"]))
         runs.append(("MC_SynLik", "sl_d2_y", sl(5, 2, "0, 1", "0, 3", "1", 0, True, SL_INVS), True, ["Whiten"]))
-        runs.append(("MC_SynLik", "sl_d2_n6", sl(6, 2, "0, 1", "-1, 2", "1, 2", 0, True, SL_INVS), True, ["Whiten"]))
+        runs.append(("MC_SynLik", "sl_d2_n6", sl(6, 2, "0, 1", "1, 4", "1", 0, True, SL_INVS), True, ["Whiten"]))
         runs.append(("BslRound", "br_n6", BR_CFG % (6, 3, 3, "TRUE", "TRUE", invs(BR_INVS, "Terminates")), True, br_act))
         runs.append(("BslRound", "br_n7", BR_CFG % (7, 2, 4, "TRUE", "TRUE", invs(BR_INVS, "Terminates")), True, br_act))
     return runs
